@@ -43,6 +43,7 @@ int g_released;           /* myth_fini_body_really was called */
 int g_k;                  /* witness worker index */
 /* context switch / migration */
 int g_ctx_saved, g_passed, g_passed_rank, g_tidx, g_switched, g_cleanup_calls;
+int g_refusals;            /* bounded job only: how many more times a run queue may refuse the hand-over (lock busy / no room) */
 
 extern volatile int g_myth_init_state;
 
@@ -87,7 +88,9 @@ struct myth_thread TH;                               /* the main thread's descri
 #ifndef NW_MAX
 #define NW_MAX 64                                    /* the property quantifies over worker counts 1..64 */
 #endif
-myth_running_env POOL[NW_MAX];                       /* typed static pool: a malloc'ed pool of symbolic size exhausts memory under loop contracts (DESIGN §7.13) */
+#ifndef POOL_MALLOC
+myth_running_env POOL[NW_MAX];
+#endif                       /* typed static pool: a malloc'ed pool of symbolic size exhausts memory under loop contracts (DESIGN §7.13) */
 
 /* ---------------- contracts: init-once ---------------- */
 int really_contract(const myth_globalattr_t * attr)
@@ -136,8 +139,8 @@ int pthread_create_contract(pthread_t * thread, const pthread_attr_t * attr, voi
   __CPROVER_requires(SETUP_DONE && g_envs == g_pool && g_envs_sz == g_nw && g_main_started == 0)
   __CPROVER_requires(attr == 0 && fn == myth_worker_thread_fn)
   __CPROVER_requires(0 <= g_created && g_created + 1 < g_nw && (intptr_t)arg == (intptr_t)g_created + 1)
-  __CPROVER_requires(thread == &g_pool[g_created + 1].worker)
-  __CPROVER_assigns(*thread, g_created)
+  __CPROVER_requires(thread == &g_pool[g_created + 1].worker && __CPROVER_w_ok(thread, sizeof(pthread_t)))
+  __CPROVER_assigns(g_created)       /* the store of the new thread's id into *thread is not modelled: the id is an opaque token */
   __CPROVER_ensures(g_created == __CPROVER_old(g_created) + 1 && __CPROVER_return_value == 0);
 
 pthread_t pthread_self_contract(void)
@@ -155,7 +158,7 @@ void * worker_thread_fn_contract(void * args)
 void exit_ex_contract(int rank)
   __CPROVER_requires(rank == 0 && g_exit_done == 0 && g_joined == 0 && g_released == 0)
   __CPROVER_requires(0 <= g_worker_rank && g_worker_rank < g_nw && 0 <= g_k && g_k < g_nw)
-  __CPROVER_assigns(g_exit_done, g_worker_rank, __CPROVER_object_whole(POOL))
+  __CPROVER_assigns(g_exit_done, g_worker_rank, __CPROVER_object_whole(g_pool))
   __CPROVER_ensures(g_exit_done == 1 && g_worker_rank == 0 && g_pool[0].rank == 0)      /* back on worker 0 */
   __CPROVER_ensures(g_pool[g_k].exit_flag != 0);                                       /* every worker was told to stop */
 
@@ -180,8 +183,10 @@ void ctx_save_contract(void * from)
 int trypass_contract(myth_thread_queue_t q, struct myth_thread * th)
   __CPROVER_requires(g_ctx_saved == 1 && g_passed == 0 && th == &TH && 0 <= g_tidx && g_tidx < g_nw)
   __CPROVER_requires((q == &g_pool[g_tidx].runnable_q && TH.env == &g_pool[g_tidx]) || (q == &g_pool[0].runnable_q && TH.env == &g_pool[0]))
-  __CPROVER_assigns(g_passed, g_passed_rank)
+  __CPROVER_requires(g_refusals >= 0)
+  __CPROVER_assigns(g_passed, g_passed_rank, g_refusals)
   __CPROVER_ensures(__CPROVER_return_value == 0 || __CPROVER_return_value == 1)
+  __CPROVER_ensures(g_refusals == __CPROVER_old(g_refusals) - (1 - __CPROVER_return_value) && g_refusals >= 0)
   __CPROVER_ensures(g_passed == __CPROVER_return_value)
   __CPROVER_ensures(__CPROVER_return_value == 1 ==> g_passed_rank == (q == &g_pool[g_tidx].runnable_q ? g_tidx : 0));
 
@@ -191,14 +196,14 @@ int random_contract(int min, int max)             /* floating-point body not ana
   __CPROVER_ensures(min <= __CPROVER_return_value && __CPROVER_return_value < max && g_tidx == __CPROVER_return_value);
 
 /* the thread is resumed by the worker whose queue accepted it (the main thread is never stolen: myth_steal_body puts it
-   back), on that worker's OS thread; that worker's descriptor names it as the running thread and has rank == index
-   (established by myth_setup_worker) */
+   back), on that worker's OS thread; that worker's descriptor then names it as the running thread */
 void suspend_resume_contract(void * from, void * to)
   __CPROVER_requires(g_ctx_saved == 1 && g_passed == 1 && 0 <= g_passed_rank && g_passed_rank < g_nw)
   __CPROVER_requires(from == (void *)&TH.context && 0 <= g_worker_rank && g_worker_rank < g_nw && to == (void *)&g_pool[g_worker_rank].sched.context)
-  __CPROVER_assigns(g_worker_rank, g_passed, g_ctx_saved, g_switched, g_pool[g_passed_rank].this_thread, g_pool[g_passed_rank].rank)
+  __CPROVER_requires(g_pool[g_passed_rank].this_thread == 0)        /* the receiving worker is in its scheduler */
+  __CPROVER_assigns(g_worker_rank, g_passed, g_ctx_saved, g_switched, g_pool[g_passed_rank].this_thread)
   __CPROVER_ensures(g_worker_rank == g_passed_rank && g_passed == 0 && g_ctx_saved == 0 && g_switched == 1)
-  __CPROVER_ensures(g_pool[g_passed_rank].this_thread == &TH && g_pool[g_passed_rank].rank == g_passed_rank);
+  __CPROVER_ensures(g_pool[g_passed_rank].this_thread == &TH);
 
 void cleanup_worker_contract(int rank)
   __CPROVER_requires(rank == g_worker_rank && g_cleanup_calls == 0)        /* a worker cleans up its own descriptor */
@@ -245,7 +250,12 @@ static void havoc_attr(myth_globalattr_t * a) {
 static void setup_workers(void) {
   g_nw = nondet_int();
   __CPROVER_assume(1 <= g_nw && g_nw <= NW_MAX);
+#ifdef POOL_MALLOC
+  g_pool = malloc(sizeof(myth_running_env) * (size_t)g_nw);
+  __CPROVER_assume(g_pool != 0);
+#else
   g_pool = &POOL[0];
+#endif
   g_k = nondet_int();
   __CPROVER_assume(0 <= g_k && g_k < g_nw);
 }
@@ -299,16 +309,26 @@ void h_fini(void) {
   VERIF_CANARY();
 }
 
+#ifndef MAX_REFUSALS
+#define MAX_REFUSALS 2
+#endif
+#ifndef POOL_MALLOC
 static void setup_migration(void) {
   setup_workers();
   g_attr.n_workers = g_nw;
   g_envs = g_pool; g_envs_sz = g_nw;
+  for (int k = 0; k < NW_MAX; k++) {                  /* constant bound */
+    POOL[k].rank = k;                                 /* established by myth_setup_worker for every worker */
+    POOL[k].this_thread = 0;                          /* the other workers are in their scheduler loop */
+    POOL[k].exit_flag = nondet_int();
+  }
   g_worker_rank = nondet_int();                       /* finalisation called while the main thread is on ANY worker */
   __CPROVER_assume(0 <= g_worker_rank && g_worker_rank < g_nw);
-  g_pool[g_worker_rank].rank = g_worker_rank;         /* established by myth_setup_worker */
-  g_pool[g_worker_rank].this_thread = &TH;
-  TH.env = &g_pool[g_worker_rank];
+  POOL[g_worker_rank].this_thread = &TH;
+  TH.env = &POOL[g_worker_rank];
   g_ctx_saved = 0; g_passed = 0; g_passed_rank = -1; g_switched = 0; g_cleanup_calls = 0;
+  g_refusals = nondet_int();
+  __CPROVER_assume(0 <= g_refusals && g_refusals <= MAX_REFUSALS);
 }
 
 void h_exit_ex(void) {
@@ -317,14 +337,17 @@ void h_exit_ex(void) {
   __CPROVER_assume(0 <= rank && rank < g_nw);
   g_tidx = rank;
   int r0 = g_worker_rank;
+  int flag_k = POOL[g_k].exit_flag;
   myth_startpoint_exit_ex_body(rank);
   __CPROVER_assert(g_worker_rank == rank, "exit_ex: ends on the requested worker");
-  __CPROVER_assert(g_pool[g_k].exit_flag != 0, "exit_ex: every worker's exit flag is raised");
+  __CPROVER_assert(POOL[g_k].exit_flag != 0, "exit_ex: every worker's exit flag is raised");
+  __CPROVER_assert(flag_k == 0 || POOL[g_k].exit_flag == flag_k, "exit_ex: a flag that is already set (-1 marks the main thread's worker) is kept");
   __CPROVER_assert(g_cleanup_calls == 1, "exit_ex: cleans up the worker once");
   __CPROVER_assert((r0 == rank) == (g_switched == 0), "exit_ex: switches context iff it is not already on the requested worker");
   __CPROVER_assert(g_passed == 0 && g_ctx_saved == 0, "exit_ex: no pending hand-over");
   VERIF_CANARY();
 }
+#endif
 
 /* worker index and count */
 void h_worker_num(void) {
